@@ -12,7 +12,9 @@ FLOATS = [0.0, 1.0, -1.0, 0.5, 1.5, 2.0, 2.5, 3.0, 0.1, 0.2, 0.30000000000000004
 
 DATES = [(1900, 1, 1, 0, 0, 0, 0), (1970, 1, 1, 0, 0, 0, 0), (1999, 12, 31, 23, 59, 59, 0), (2000, 2, 29, 12, 0, 0, 0),
          (2020, 1, 1, 0, 0, 0, 0), (2020, 1, 1, 0, 0, 1, 0), (2020, 12, 31, 0, 0, 0, 0), (2021, 1, 1, 0, 0, 0, 0),
-         (9999, 12, 31, 23, 59, 59, 0), (2020, 1, 2, 0, 0, 0, 0)]
+         (9999, 12, 31, 23, 59, 59, 0), (2020, 1, 2, 0, 0, 0, 0),
+         # dates less than a second apart (reachable through date arithmetic with fractions of a day)
+         (2020, 1, 1, 0, 0, 0, 5000), (2020, 1, 1, 0, 0, 0, 999000), (2020, 1, 1, 0, 0, 1, 1000)]
 
 PATTERNS = ["", "a", "a+", "[a-z]*", "^x$", "a|b", "\\d+", ".", "ab"]
 
